@@ -3,7 +3,7 @@ import random
 
 from . import framework, gen_trace, gen_expr, impl, session, wire
 
-SETUP = ['(define x 3)', '(define y 0)', '(define n 2)', "(define xs '(1 2 3))"]
+SETUP = ['(define x 3)', '(define y 0)', '(define n 2)', "(define xs '(1 2 3))", '(defsig vclk9 (= top.clk 1))']
 PROBE = '(list x y n INDEX)'
 
 
@@ -20,9 +20,9 @@ def vals(rng, V):
     return rng.choice([V, '7', f'(+ {V} 1)', 'x', '"s"', f'(* {V} 2)', f'(set [y (+ y {V})])'])
 
 
-def gen_form(rng, V):
+def gen_form(rng, V, kind=None):
     """-> (library form, defining expression) over the user variable V"""
-    k = rng.choice(['when', 'unless', 'cond', 'cond', 'for/list', 'for', 'dowhile', 'until', 'inc', 'dec', 'set!', 'defun', 'car', 'cdr', 'cadr',
+    k = kind or rng.choice(['when', 'unless', 'cond', 'cond', 'for/list', 'for', 'dowhile', 'until', 'inc', 'dec', 'set!', 'defun', 'car', 'cdr', 'cadr',
                     'rising', 'falling', 'stable', 'unstable', 'nested-temporal', 'nested-temporal', 'always', 'count', 'sum', 'append', 'partition', 'timeframe', 'geta/default',
                     'step-until', 'step-while', 'set-index', 'reverse', 'filter'])
     c, a, b = pr('c', conds(rng, V)), pr('a', vals(rng, V)), pr('b', vals(rng, V))
@@ -71,7 +71,8 @@ def gen_form(rng, V):
         return k, f'(cdr (list {a} 2 {V}))', f'(rest (list {a} 2 {V}))'
     if k == 'cadr':
         return k, f'(cadr (list {a} 2 {V}))', f'(first (rest (list {a} 2 {V})))'
-    sig = rng.choice(['top.clk', 'top.d_valid', '(+ top.clk 0)', 'top.cnt', '(slice top.cnt 0)'])
+    # operands of the temporal forms: signals, expressions, and the things that are not stored samples (a virtual signal, TS, INDEX)
+    sig = rng.choice(['top.clk', 'top.d_valid', '(+ top.clk 0)', 'top.cnt', '(slice top.cnt 0)', 'vclk9', 'TS', 'INDEX', 'vclk9'])
     if k == 'rising':
         return k, f'(rising {sig})', f'(&& (= {sig} 0) (= (reval {sig} 1) 1))'
     if k == 'falling':
@@ -160,10 +161,20 @@ def template_symbols():
                 binders(e)
             for x in e:
                 walk(x, q)
-    for v in w.eval_context.global_environment.environment.values():
+    BY_MACRO.clear()
+    for name, v in w.eval_context.global_environment.environment.items():
         if isinstance(v, Macro):
+            before = set(syms)
+            syms.clear()
             walk(v.expression, False)
+            own = set(syms)
+            params = [v.args.name] if isinstance(v.args, Symbol) else [p.name for p in v.args if isinstance(p, Symbol)] if isinstance(v.args, (WList, list)) else []
+            BY_MACRO[name] = sorted((own | set(params)) - set(Trace.SPECIAL_SIGNALS))
+            syms |= before
     return sorted(s for s in syms if s not in Trace.SPECIAL_SIGNALS) + ['acc', 'x', 'TIMEFRAME-START', 'RES', 'tmp', 'temp', 'sym', 'body', 'args', 'condition']
+
+
+BY_MACRO = {}     # macro name -> names its own template binds (and its parameter names), read from the current std.wal
 
 
 _TS = None
@@ -194,6 +205,11 @@ class C15(framework.PropertyCheck):
                 yield {'kind': 'usermacro', 'seed': rng.randrange(1 << 30), 'V': V, 'start': rng.randrange(6)}
                 continue
             k, form, eq = gen_form(r, V)
+            own = BY_MACRO.get(k) or []
+            if own and i % 3 == 1:
+                # the operand variable carries a name that this very macro binds in its template (or uses as a parameter)
+                V = rng.choice(own)
+                k, form, eq = gen_form(random.Random(rng.randrange(1 << 30)), V, kind=k)
             yield {'kind': k, 'form': form, 'eq': eq, 'V': V, 'start': rng.randrange(6)}
 
     _trace = None
@@ -222,6 +238,10 @@ class C15(framework.PropertyCheck):
             if isinstance(e, Symbol):
                 if e.name == 'INDEX':
                     return i
+                if e.name == 'TS':
+                    return den['timestamps'][i]
+                if e.name == 'vclk9':
+                    return den['values']['top.clk'][i] == 1
                 if e.name in den['values']:
                     return den['values'][e.name][i]
                 raise Outside()
